@@ -147,6 +147,12 @@ def run(tier, v):
                 pool_lines.append({"id": pid_, "crate": crate, "workers": nw, "queue": 4096, "batch": bs, "timeout_ms": 5, "dispatchers": [frames],
                                    "perturb": vlib.seed() * 7919 + pid_ + 1, "matcher": crate == "tcp"})
                 meta.append({"seq": sid, "crate": crate, "nw": nw, "batch": bs, "conns": [c for c, _ in tr]})
+            # a slow source: the workers run into their idle timeout (5 ms) between any two packets, with full and partial batches
+            for (nw, bs) in (((1, 4), (3, 32)) if tier != "thorough" else ((1, 1), (1, 4), (3, 32), (8, 2))):
+                pid_ = len(pool_lines)
+                pool_lines.append({"id": pid_, "crate": crate, "workers": nw, "queue": 4096, "batch": bs, "timeout_ms": 5, "gap_us": 9000, "dispatchers": [frames],
+                                   "perturb": 0, "matcher": crate == "tcp"})
+                meta.append({"seq": sid, "crate": crate, "nw": nw, "batch": bs, "slow_source": True, "conns": [c for c, _ in tr]})
     # ---- sequential runs
     seq_res = {}
     for mode in ("tcp", "http", "tls"):
@@ -191,7 +197,7 @@ def run(tier, v):
     preq = os.path.join(wd, "pool.req")
     vlib.write_ndjson(preq, pool_lines)
     pout = os.path.join(wd, "pool.out")
-    vlib.run_hv("pool", preq, pout, timeout=3000)
+    vlib.run_hv_split("pool", preq, pout, parts=6, timeout=3000)
     trace = os.path.join(wd, "trace.ndjson")
     n_runs = n_results = 0
     rows = {}
